@@ -238,14 +238,15 @@ class Fxp():
 
         # store the value
         if raw and not _initialized and isinstance(n_frac, int) and isinstance(self.n_frac, int) and self.n_frac != n_frac \
-                and isinstance(val, (int, float, np.integer, np.floating, list, tuple, np.ndarray)):
+                and isinstance(val, (int, float, complex, np.integer, np.floating, np.complexfloating, list, tuple, np.ndarray)):
             # (the word was limited and the fraction length shortened by the size search: the raw value was given for the fraction length asked)
             _raw_val = np.array(val, dtype=object) if isinstance(val, (list, tuple)) else np.asarray(val)
             if _raw_val.dtype.kind in 'iu' or (_raw_val.dtype == object and all(isinstance(v, (int, np.integer)) for v in _raw_val.ravel().tolist())):
                 val = utils.scale_raw(val if isinstance(val, int) else _raw_val, self.n_frac - n_frac)
-            elif _raw_val.dtype.kind == 'f' or (_raw_val.dtype == object and all(isinstance(v, (int, float, utils.Fraction, np.integer, np.floating)) for v in _raw_val.ravel().tolist())):
+            elif _raw_val.dtype.kind in 'fc' or (_raw_val.dtype == object and all(isinstance(v, (int, float, complex, utils.Fraction, np.integer, np.floating, np.complexfloating)) for v in _raw_val.ravel().tolist())):
                 # (raw values that carry fraction bits - floats, exact quotients: the results of the operators when fraction bits are given up)
-                val = np.array(_raw_val * utils.Fraction(1, 2**(n_frac - self.n_frac)), dtype=object) if _raw_val.dtype == object else _raw_val * 2.0**(self.n_frac - n_frac)
+                val = np.array(_raw_val * utils.Fraction(1, 2**(n_frac - self.n_frac)), dtype=object) if _raw_val.dtype == object \
+                    else _raw_val.astype(np.complex128 if _raw_val.dtype.kind == 'c' else np.float64) * 2.0**(self.n_frac - n_frac)   # (not in a narrow carrier's own type)
         self.set_val(val, raw=raw)
 
         if dtype is not None and complex_flag:
